@@ -135,3 +135,32 @@ func (n *zzNested) DecodeFromReader(r *Reader) error {
 	n.v = v
 	return err
 }
+
+// C08.c field keys at full width: a field is consumed only under its own key — the shortest-form varint
+// of (fieldNumber<<3 | wireType) — and under no other 64-bit key value, in particular none that agrees
+// with it only in its low 32 bits. Input: a 10-byte symbolic varint as the key, then the one-byte value
+// 0x05; strict ReadUInt of a symbolic small field number. Whenever the read succeeds with the value,
+// the key bytes are exactly the canonical key bytes.
+//
+//zz:opt loop=64 require=consumed,refused
+func zzH_C08_reader_key_full_width(t *zzT) {
+	kb := t.Bytes("key", 10)
+	klen := t.Range("key.len", 1, 10)
+	b := append(append([]byte{}, kb[:klen]...), 0x05)
+	field := int(t.U8("field"))
+	t.Assume(field >= 1 && field <= 31)
+	r := NewReader(b)
+	v, err := r.ReadUInt(field, true)
+	if err == nil && v == 5 {
+		// the reader consumed r.index bytes: the key and the one value byte (bytes after it are not its concern)
+		used := r.index - 1
+		if field <= 15 {
+			t.Assert(used == 1 && kb[0] == byte(field<<3), "a field is consumed only under its canonical key (one byte)")
+		} else {
+			t.Assert(used == 2 && kb[0] == byte(field<<3)|0x80 && kb[1] == byte(field>>4), "a field is consumed only under its canonical key (two bytes)")
+		}
+		t.Reach("consumed")
+		return
+	}
+	t.Reach("refused")
+}
